@@ -189,6 +189,16 @@ fn run_crash(case: &Case) -> Outcome {
     let s0_old = read_s0(&base);
     let s0_fin = exec(0).ok().and_then(|(img, _)| read_s0(&img));
     let grows_by_set_len = matches!(case.ops.last(), Some(Op::HSetLen { .. }));
+    // /s0's stored directory entry (start sector, size): a crash between two of the library's
+    // field writes leaves a TORN entry (new start sector with the old size, ...) under which
+    // anything may show; no property promises atomic entry updates, so the crash image is judged
+    // only when the entry is completely the one the undisturbed operation ends with
+    let entry_of_s0 = |img: &[u8]| -> Option<(u32, u64)> {
+        let p = crate::imgck::check(img);
+        let want: Vec<u16> = "s0".encode_utf16().collect();
+        p.layout.entries.iter().find(|e| e.obj_type == 2 && e.name_len_field == 6 && e.name_units[..2] == want[..]).map(|e| (e.start_sector, e.size))
+    };
+    let final_entry = exec(0).ok().and_then(|(img, _)| entry_of_s0(&img));
     let foreign_byte = |content: &[u8]| -> Option<usize> {
         let (old, fin) = (s0_old.as_ref()?, s0_fin.as_ref()?);
         (old.len()..content.len()).find(|&p| content[p] != 0 && (p >= fin.len() || content[p] != fin[p]))
@@ -230,9 +240,14 @@ fn run_crash(case: &Case) -> Outcome {
         };
         lib.budget_base = 400_000;
         o.stats.probe("crash_image_accepted");
-        // (i) the crash image itself: whatever length /s0 has in it, the bytes beyond its old
-        // length are zero or the operation's own
-        if let Res::Bytes(now) = lib.exec(&Op::ReadWhole("/s0".into())) {
+        // (i) the crash image itself, when the cut-short operation is a set_len and the stream's
+        // directory entry is already completely the final one (set_len HAS made the stream longer
+        // in the file): the bytes beyond the old length are zero
+        let committed = grows_by_set_len && final_entry.is_some() && entry_of_s0(&img) == final_entry;
+        if !committed {
+            o.stats.probe("crash_image_entry_not_final(not judged)");
+        } else if let Res::Bytes(now) = lib.exec(&Op::ReadWhole("/s0".into())) {
+            o.stats.probe("crash_image_entry_final(judged)");
             if s0_old.as_ref().map_or(false, |old| now.len() > old.len()) {
                 o.stats.probe("crash_image_shows_the_stream_longer");
             }
@@ -244,7 +259,7 @@ fn run_crash(case: &Case) -> Outcome {
                     property: "C08".into(),
                     rule: "stale-in-crash-image".into(),
                     site: "crash-image".into(),
-                    msg: format!("crash at seam call {} of a growing operation, bytes reopened: \"/s0\" (was {} bytes) has {} bytes and byte {} reads {:#04x} - neither zero nor what the operation writes there", k, s0_old.as_ref().map_or(0, |o| o.len()), now.len(), pos, now[pos]),
+                    msg: format!("crash at seam call {} of set_len after its directory entry was completely written, bytes reopened: \"/s0\" (was {} bytes) has {} bytes and byte {} reads {:#04x} - neither zero nor what the operation writes there", k, s0_old.as_ref().map_or(0, |o| o.len()), now.len(), pos, now[pos]),
                     step: 0,
                 });
                 break 'all;
